@@ -55,6 +55,18 @@ def main():
             out["test_suite"] = {"exit": rc, "summary": [l for l in o.splitlines() if " passed" in l or " failed" in l][-1:]}
         res = {}
         props = [c["property_id"] for c in json.loads((VERIF / "MANIFEST.json").read_text())["checks"]]
+        if os.environ.get("TWINCHECK_RELATED"):
+            # only the checks that read a file the patch touches (table shared with tools/twinregress.py)
+            sys.path.insert(0, str(VERIF / "tools"))
+            from twinregress import RELATED
+            touched = [l.split()[-1] for l in (d / "patch.diff").read_text().splitlines() if l.startswith("+++ b/")]
+            keep = {re.search(r"C\d\d", d.name).group(0)}
+            for f_ in touched:
+                for pat, checks in RELATED:
+                    if pat in f_:
+                        keep |= set(checks)
+            props = [p_ for p_ in props if p_ in keep]
+            out["checks_run"] = props
         for pid in props:
             e2 = dict(os.environ, GSVERIF_EVIDENCE_DIR=str(tmp / f"ev-{pid}"), PYTHONPATH=str(VERIF), GSVERIF_JOBS=os.environ.get("GSVERIF_JOBS", "4"))
             rc, o = sh(f"timeout 1700 {PY} -m gsverif check {pid} --tier quick --repo {wt}", cwd=str(VERIF), env=e2, timeout=1800)
